@@ -53,8 +53,8 @@ Kinds == {"lit", "var", "enumlit", "enumvar", "objlit", "objvar", "objnested", "
 \* merged field nodes: in  items { n @tq ... on B { n @tr } }  the query-side directives of ALL nodes merged under
 \* the response key wrap the field - one node for an A item, two for a B item (first node's directive outermost)
 MergedExpected(c) ==
-  [itemA |-> "out(r(a)" \o MarksRev("f", "f", c.f) \o MarksRev("f", "q", IF c.q >= 1 THEN 1 ELSE 0) \o Marks("o", "s", 1, c.s) \o ")",
-   itemB |-> "out(r(b)" \o MarksRev("f", "f", c.f) \o MarksRev("f", "q", c.q) \o Marks("o", "s", 1, c.s) \o ")"]
+  [itemA |-> "out(r(a)" \o Marks("o", "o", 1, c.o) \o MarksRev("f", "f", c.f) \o MarksRev("f", "q", IF c.q >= 1 THEN 1 ELSE 0) \o Marks("o", "s", 1, c.s) \o ")",
+   itemB |-> "out(r(b)" \o Marks("o", "o", 1, c.o) \o MarksRev("f", "f", c.f) \o MarksRev("f", "q", c.q) \o Marks("o", "s", 1, c.s) \o ")"]
 Expected(c, kind) ==
   [arg |-> IF kind \in {"lit", "var"} THEN ArgScalar(c, kind)
            ELSE IF kind \in {"objlit", "objvar", "objnested"} THEN ArgObjField(c, kind)
@@ -62,7 +62,7 @@ Expected(c, kind) ==
    data |-> IF kind \in {"lit", "var"} THEN Final(c, ArgScalar(c, kind))
             ELSE IF kind \in {"objlit", "objvar", "objnested"} THEN Final(c, ArgObjField(c, kind))
             ELSE IF kind \in {"enumlit", "enumvar"} THEN "X"
-            ELSE "out(r(v)" \o Marks("o", "s", 1, c.s) \o ")",
+            ELSE "out(r(v)" \o Marks("o", "o", 1, c.o) \o Marks("o", "s", 1, c.s) \o ")",   \* the object type's output hooks return a marked copy
    log |-> Log(c, kind)]
 
 \* ---- R1 ------------------------------------------------------------------------------------
